@@ -19,7 +19,10 @@ CLAIM = dict(
               "plus a property oracle on the code's own objects",
     text="Theorems, for EVERY list of symmetry operations (group or not), every grid with positive sizes, every "
          "periodicity mask, with and without symmetry reduction: get_K_list returns non-negative weights that sum to 1 "
-         "(getKList_total); under the group hypotheses on the star map (reflexive/symmetric/transitive on the grid, no "
+         "(getKList_total); for every sequence of calls on one grid object the object is unchanged and each call returns "
+         "getKList(group, div, use_symmetry) - a function of its own arguments only (getKList_call_history; the harness "
+         "replays call histories with both orders of use_symmetry, refinement of the returned lists in between and run() "
+         "reusing the grid, on Grid and GridTetra); under the group hypotheses on the star map (reflexive/symmetric/transitive on the grid, no "
          "repetitions - an executable test of which is run on the code's own point groups) each retained point carries "
          "|orbit|/N and every grid point lies in the star of exactly one retained point (getKList_orbit_cover); for every "
          "ndiv>0 the children of divide() tile the parent's half-open cell (existence and uniqueness) and carry the "
@@ -47,7 +50,9 @@ TRUSTED = [
     "checked, not modelled: run()'s choice of the points to refine, pickling of K-points, GridTrigonal",
 ]
 RULE = ("cases = (point group from generators on a compatible lattice, grid, symmetry on/off, periodicity mask, random "
-        "refinement history of 0-6 steps with random meshes and selected indices); non-trivial = the group has more than "
+        "refinement history of 0-6 steps with random meshes and selected indices; call histories of 3-6 get_K_list calls "
+        "with varying (use_symmetry, k_batch) on ONE Grid / GridTetra object with refinement of the returned lists in "
+        "between, and pairs of run() calls on one Grid); non-trivial = the group has more than "
         "one element or the history has at least one step; distinct = distinct (group, lattice, grid, flags, history) / "
         "distinct protocol line")
 
@@ -346,6 +351,32 @@ def corr_hist(ctx, B):
             # the real history is run again and compared with the model right after every step (factors are mutated
             # by later steps, so the comparison cannot be postponed)
             B.add(line, (lambda o, case=case: replay_hist_against_model(ctx, case, o)), case, "history")
+    # --- repeated calls on ONE Grid object (both orders of use_symmetry, the returned lists are refined/spoiled in
+    #     between): the model is a pure function of (group, div, use_symmetry), every call must reproduce it
+    for it in range(ctx.n(8, 40)):
+        desc, pg = pick_case(rng)
+        first = rng.random() < 0.5
+        calls = [first, not first] + [rng.random() < 0.5 for _ in range(rng.randint(0, 2))]
+        case = dict(kind="reuse-corr", group=desc["group"], gens=desc["gens"], lat=desc["lat"], div=desc["div"],
+                    periodic=desc["periodic"], calls=[bool(c) for c in calls])
+        with ctx.attempt("repeated Grid.get_K_list on one Grid object", case):
+            s, g = make_grid(pg, desc["div"], desc["periodic"])
+            exact = all(pow2(int(d)) for d in g.div)
+            keep = []
+            for i, us in enumerate(calls):
+                with quiet():
+                    kl = g.get_K_list(use_symmetry=us, k_batch=rng.choice([None, 3, 50]))
+                rows = []
+                for K in kl:
+                    o = _K()
+                    o.K, o.dK, o.factor, o.refinement_level = np.array(K.K), np.array(K.dK), float(K.factor), K.refinement_level
+                    rows.append(o)
+                B.add(f"klist {sym_tok(pg)} {ints(g.div)} {int(us)}",
+                      (lambda o, rows=rows, exact=exact: cmp_klist(o, rows, exact)), dict(case, call=i, use_symmetry=bool(us)),
+                      f"get_K_list call {i} on a reused Grid")
+                ctx.count("corr.reuse.calls")
+                keep.append(kl)
+                abuse_list(rng, kl, s, us)
     # --- the group hypotheses of the orbit theorem hold for the code's own groups (executable check in the model)
     for name, gens, kinds in GROUPS:
         for kind in kinds[:ctx.n(1, 3)]:
@@ -671,37 +702,115 @@ def oracle_klist(ctx, desc, pg, useSym):
         s, g = make_grid(pg, desc["div"], desc["periodic"])
         with quiet():
             kl = g.get_K_list(use_symmetry=useSym)
-        div = [int(d) for d in g.div]
-        N = int(np.prod(div))
-        fac = np.array([K.factor for K in kl])
-        ctx.case(signature=("klist", desc["group"], desc["kind"], tuple(div), useSym), nontrivial=pg.size > 1)
+        ctx.case(signature=("klist", desc["group"], desc["kind"], tuple(int(d) for d in g.div), useSym), nontrivial=pg.size > 1)
         ctx.count(f"oracle.klist.group={desc['group']}")
-        if (fac < 0).any():
-            ctx.fail("get_K_list: negative weight", dict(case, factors=fac))
-        if abs(fac.sum() - 1) > 1e-12:
-            ctx.fail(f"get_K_list: weights sum to {fac.sum()!r}", case)
-        mats = full_mats(pg) if useSym else [np.eye(3, dtype=int)]
-        cover = {}
-        for K in kl:
-            q = tuple(int(round(float(K.K[i]) * div[i])) for i in range(3))
-            if any(abs(float(K.K[i]) * div[i] - q[i]) > 1e-9 for i in range(3)):
-                ctx.fail("get_K_list: retained point is not a grid point", dict(case, K=K.K))
-            orb = images_idx(mats, q, div)
-            if orb is None:
-                ctx.fail("symmetry image of a grid point is off the grid although symmetric_grid() accepted it", case)
-                return
-            if abs(K.factor - len(orb) / N) > 1e-13:
-                ctx.fail(f"get_K_list: weight {K.factor!r} of point {q} differs from |orbit|/N = {len(orb)}/{N}",
-                         dict(case, point=q))
-            for o in orb:
-                cover.setdefault(o, []).append(q)
-            if not np.allclose(K.dK, 1 / np.array(div)) or K.refinement_level != 0:
-                ctx.fail("get_K_list: wrong dK / level", case)
-        for q in itertools.product(*[range(d) for d in div]):
-            c = cover.get(q, [])
-            if len(c) != 1:
-                ctx.fail(f"get_K_list: grid point {q} is covered by {len(c)} retained points {c[:4]}", dict(case, point=q))
-                break
+        check_klist(ctx, case, kl, [int(d) for d in g.div], pg, useSym)
+
+
+def check_klist(ctx, case, kl, div, pg, useSym):
+    """the cover property of one returned K-list with respect to the group that the call asked for
+    (the point group for use_symmetry=True, the trivial group for use_symmetry=False)"""
+    N = int(np.prod(div))
+    fac = np.array([K.factor for K in kl])
+    ok = True
+    if (fac < 0).any():
+        ctx.fail("get_K_list: negative weight", dict(case, factors=fac))
+        ok = False
+    if abs(fac.sum() - 1) > 1e-12:
+        ctx.fail(f"get_K_list: weights sum to {fac.sum()!r}", case)
+        ok = False
+    mats = full_mats(pg) if useSym else [np.eye(3, dtype=int)]
+    cover = {}
+    for K in kl:
+        q = tuple(int(round(float(K.K[i]) * div[i])) for i in range(3))
+        if any(abs(float(K.K[i]) * div[i] - q[i]) > 1e-9 for i in range(3)):
+            ctx.fail("get_K_list: retained point is not a grid point", dict(case, K=K.K))
+            return False
+        orb = images_idx(mats, q, div)
+        if orb is None:
+            ctx.fail("symmetry image of a grid point is off the grid although symmetric_grid() accepted it", case)
+            return False
+        if abs(K.factor - len(orb) / N) > 1e-13:
+            ctx.fail(f"get_K_list(use_symmetry={useSym}): weight {K.factor!r} of point {q} differs from |orbit|/N = "
+                     f"{len(orb)}/{N} (orbit under the group of this call)", dict(case, point=q))
+            ok = False
+        for o in orb:
+            cover.setdefault(o, []).append(q)
+        if not np.allclose(K.dK, 1 / np.array(div)) or K.refinement_level != 0:
+            ctx.fail("get_K_list: wrong dK / level", case)
+            ok = False
+    for q in itertools.product(*[range(d) for d in div]):
+        c = cover.get(q, [])
+        if len(c) != 1:
+            ctx.fail(f"get_K_list(use_symmetry={useSym}): grid point {q} is covered by {len(c)} retained points {c[:4]} "
+                     f"(images under the group of this call)", dict(case, point=q))
+            ok = False
+            break
+    return ok
+
+
+class _FakeResult:
+    """stands for the result of a calculator on a K-point (only what KpointBZ.set_result touches)"""
+    max = np.array([1.0])
+
+    def __mul__(self, other):
+        return self
+
+
+def abuse_list(rng, kl, sys_, useSym):
+    """do to a returned K-list what run() and a careless caller may do: refine, merge, evaluate, change weights"""
+    wbm = _wb()
+    with quiet():
+        l1 = len(kl)
+        for iK in sorted({rng.randrange(len(kl)) for _ in range(rng.randint(1, 3))} | {0}):
+            kl += kl[iK].divide(ndiv=np.array([2, 2, 2]), periodic=sys_.periodic, use_symmetry=useSym)
+        if useSym:
+            wbm["excl"](kl, new_points=len(kl) - l1)
+    for K in rng.sample(kl, min(len(kl), 3)):
+        K.set_result(_FakeResult())
+    for K in rng.sample(kl, min(len(kl), 2)):
+        K.set_factor(0.25)
+    kl[0].refinement_level = 3
+    if rng.random() < 0.5:
+        del kl[len(kl) // 2:]
+
+
+def oracle_reuse(ctx, rng):
+    """call histories on ONE Grid object: every call must satisfy the property for the group IT asked for, and must
+    return fresh K-points - whatever was asked before and whatever was done to the earlier lists"""
+    for _ in range(20):
+        desc, pg = pick_case(rng)
+        if pg.size > 1 and np.prod(desc["div"]) > 1:
+            break
+    first = rng.random() < 0.5
+    calls = [first, not first] + [rng.random() < 0.5 for _ in range(rng.randint(1, 4))]
+    kbs = [rng.choice([None, 1, 7, 50]) for _ in calls]
+    case = dict(kind="reuse", group=desc["group"], gens=desc["gens"], lat=desc["lat"], div=desc["div"],
+                periodic=desc["periodic"], calls=[bool(c) for c in calls], k_batch=kbs)
+    with ctx.attempt("repeated Grid.get_K_list on one Grid object", case):
+        s, g = make_grid(pg, desc["div"], desc["periodic"])
+        div = [int(d) for d in g.div]
+        fft0 = [int(f) for f in g.FFT]
+        alive = []
+        ctx.case(signature=("reuse", desc["group"], desc["kind"], tuple(div), tuple(calls)), nontrivial=True)
+        ctx.count("oracle.reuse.first-call-symmetric" if first else "oracle.reuse.first-call-full")
+        for i, (us, kb) in enumerate(zip(calls, kbs)):
+            with quiet():
+                kl = g.get_K_list(use_symmetry=us, k_batch=kb)
+            ci = dict(case, call=i, use_symmetry=bool(us), previous_calls=[bool(c) for c in calls[:i]])
+            ctx.count("oracle.reuse.calls")
+            check_klist(ctx, ci, kl, div, pg, us)
+            seen = {id(K) for old in alive for K in old}
+            if any(id(K) in seen for K in kl) or len({id(K) for K in kl}) != len(kl):
+                ctx.fail("get_K_list returns K-point objects that an earlier call already returned (refining one list would "
+                         "change the other)", ci)
+            if any(K.was_evaluated_flag or K.result is not None or K.refinement_level != 0 for K in kl):
+                ctx.fail("get_K_list returns K-points that carry a result / a refinement level from an earlier use", ci)
+            if [int(d) for d in g.div] != div or [int(f) for f in g.FFT] != fft0:
+                ctx.fail("the Grid object changed (div / FFT) after get_K_list", ci)
+            alive.append(list(kl))
+            abuse_list(rng, kl, s, us)
+            alive.append(list(kl))
 
 
 def my_equiv(mats, Ka, Kb, la, lb):
@@ -1010,6 +1119,60 @@ def corr_run(ctx, B):
             B.add(line, chk, dict(case, ops=ops), "K-list of run()")
 
 
+def oracle_run_reuse(ctx, rng):
+    """two real run() calls on the SAME Grid object with different use_irred_kpt (both orders); the K-list of the second
+    run (iteration 0, from its restart files) and a direct get_K_list afterwards must satisfy the property for the group
+    that was asked for"""
+    import pickle
+    from ..wbsys import rand_system, wb
+    name, gens, kind = rng.choice([g for g in RUN_GROUPS if g[0] != "-1"])
+    lat = lattice(kind, rng)
+    rs = np.random.RandomState(rng.getrandbits(31))
+    nk = rng.choice([2, 3, 4])
+    a = rng.random() < 0.5
+    case = dict(kind="run-reuse", group=name, gens=gens, lat=lat, NK=nk, use_irred_kpt=[bool(a), bool(not a)])
+    with ctx.attempt("two run() calls on one Grid object", case), tempfile.TemporaryDirectory(prefix="c06run") as tmp:
+        with quiet(), warnings.catch_warnings():
+            warnings.simplefilter("ignore")
+            system = rand_system(rs, num_wann=2, nR=5, max_R=1, lattice=lat, matrices=("Ham",))
+            system.set_pointgroup(symmetry_gen=gens)
+            grid = wb.Grid(system, NKdiv=nk, NKFFT=1)
+            calc = {"cdos": wb.calculators.static.CumDOS(Efermi=np.linspace(-1, 1, 3), tetra=False)}
+            cwd = os.getcwd()
+            os.chdir(tmp)
+            try:
+                for irun, use_irred in enumerate([a, not a]):
+                    wb.run(system, grid, calc, adpt_num_iter=1, adpt_mesh=2, adpt_fac=1, parallel=False,
+                           use_irred_kpt=use_irred, symmetrize=use_irred, allow_restart=True,
+                           file_Klist_path=os.path.join(tmp, f"kl{irun}"), fout_name=os.path.join(tmp, "res"))
+            finally:
+                os.chdir(cwd)
+        pg = system.pointgroup
+        div = [int(d) for d in grid.div]
+        ctx.case(signature=("run-reuse", name, nk, a), nontrivial=True)
+        ctx.count("oracle.run-reuse.cases")
+        for irun, use_irred in enumerate([a, not a]):
+            kl = []
+            with open(os.path.join(tmp, f"kl{irun}", "K_list.pickle"), "rb") as f:
+                while True:
+                    try:
+                        kl += pickle.load(f)
+                    except EOFError:
+                        break
+            fac0 = np.load(os.path.join(tmp, f"kl{irun}", "factors_iter-00000000.npy"))
+            objs = []
+            for K, w in zip(kl[:len(fac0)], fac0):
+                o = _K()
+                o.K, o.dK, o.factor, o.refinement_level = K.K, K.dK, float(w), K.refinement_level
+                objs.append(o)
+            check_klist(ctx, dict(case, run=irun, use_symmetry=bool(use_irred), what="K-list of run(), iteration 0"),
+                        objs, div, pg, use_irred)
+        for us in (a, not a):
+            with quiet():
+                kl = grid.get_K_list(use_symmetry=us)
+            check_klist(ctx, dict(case, what="get_K_list after the two runs", use_symmetry=bool(us)), kl, div, pg, us)
+
+
 def bary(verts, p):
     T = np.array([verts[1] - verts[0], verts[2] - verts[0], verts[3] - verts[0]]).T
     l = np.linalg.solve(T, p - verts[0])
@@ -1072,6 +1235,20 @@ def oracle_tetra(ctx, rng, tie_probe=False):
         kl = g.get_K_list()
         if any(a is b for a, b in zip(kl, g.K_list)):
             ctx.fail("GridTetra.get_K_list returns the grid's own objects (refinement would corrupt the grid)", case)
+        # call history on the one GridTetra object: refine / spoil the first list, ask again with other arguments
+        spoiled = g.get_K_list(use_symmetry=rng.random() < 0.5, k_batch=rng.choice([None, 3]))
+        with quiet():
+            extra = spoiled[0].divide(ndiv=2) + spoiled[-1].divide(ndiv=3)
+        for K in spoiled[:3]:
+            K.set_factor(0.5)
+            K.set_result(_FakeResult())
+        again = g.get_K_list(use_symmetry=rng.random() < 0.5, k_batch=rng.choice([None, 5]))
+        tetra_checks(ctx, again, dict(case, after="second get_K_list on the same GridTetra"), region="cube")
+        ids = {id(K) for K in spoiled + extra + list(g.K_list)}
+        if any(id(K) in ids for K in again) or any(K.was_evaluated_flag or K.result is not None for K in again):
+            ctx.fail("GridTetra.get_K_list: the second call returns objects / results of the first call", case)
+        tetra_checks(ctx, g.K_list, dict(case, after="the grid's own list after refining a returned list"), region="cube")
+        ctx.count("oracle.tetra.reuse")
         # refinement as run() does it: divide some tetrahedra
         for _ in range(rng.randint(1, 4)):
             i = rng.randrange(len(kl))
@@ -1178,9 +1355,14 @@ def oracle(ctx, scale):
                      nontrivial=len(ops) > 0)
             ctx.count(f"oracle.history.group={desc['group']}")
             oracle_history(ctx, case)
+    # O2b: call histories on one Grid object (hidden state on the grid must not leak from call to call)
+    for it in range(ctx.n(12, 60) * scale):
+        oracle_reuse(ctx, rng)
     # O3: real run()
     for it in range(ctx.n(1, 5) * scale):
         oracle_run(ctx, rng)
+    for it in range(ctx.n(1, 3) * scale):
+        oracle_run_reuse(ctx, rng)
     # O4: tetrahedra
     for it in range(ctx.n(5, 20) * scale):
         oracle_tetra(ctx, rng, tie_probe=(it == 0))
